@@ -120,77 +120,58 @@ Qed.
 Lemma len_drop_le {A} n (l : list A) : len (drop n l) = len l - n.
 Proof. unfold drop, len. rewrite skipn_length. lia. Qed.
 
-(* what Binary.ReadMessageBegin returns for each cause: the type id the cause demands, except
-   that a negative name length is reported as INVALID_DATA (errReadMessage) *)
-Lemma r_message_begin_classified buf :
-  match ref_msg buf with
-  | None => exists v, r_message_begin buf = Ok v
-  | Some cz => exists c, r_message_begin buf = Err c /\
-                 etype c = (if cause_eqb cz CNeg then thrift_INVALID_DATA else cause_type cz)
-  end.
+Lemma slice_from_ok' {A} (b : list A) off : off <= len b -> slice_from b off = Ok (drop off b).
+Proof. intros H. unfold slice_from. destruct (N.leb_spec off (len b)); [reflexivity|lia]. Qed.
+
+(* what Binary.ReadMessageBegin returns for each cause: the type id the cause demands (a negative
+   name length is NEGATIVE_SIZE since the repair of /repo 0c7ba6f; before it was INVALID_DATA) *)
+Lemma r_message_begin_classified buf : classified (ref_msg buf) (r_message_begin buf).
 Proof.
-  unfold ref_msg, r_message_begin.
+  unfold ref_msg, r_message_begin, classified.
   destruct (N.ltb_spec (len buf) 4) as [Hs|Hs]; [eexists; split; reflexivity|].
   destruct (negb (N.land (unbe (take 4 buf)) (Z.to_N thrift_msgVersionMask) =? Z.to_N thrift_msgVersion1));
     [eexists; split; reflexivity|].
-  pose proof (r_binary_gen_classified e_read_str (drop 4 buf) eq_refl) as H. unfold classified in H.
-  fold r_string in H.
-  destruct (ref_str (drop 4 buf)) as [cz|] eqn:Er.
-  - destruct H as [c [-> Hc]]. eexists; split; [reflexivity|].
-    (* the cause is truncation or a negative size *)
-    unfold ref_str in Er. destruct (len (drop 4 buf) <? 4); [inversion Er; reflexivity|].
-    destruct (_ <? 0)%Z; [inversion Er; reflexivity|].
-    destruct (len (drop 4 buf) <? _); [inversion Er; reflexivity|discriminate].
-  - destruct H as [[name l] E]. rewrite E.
-    (* l = 4 + sz *)
-    assert (Hl : l = 4 + Z.to_N (to_signed 32 (unbe (take 4 (drop 4 buf)))) /\ 4 + l <= len buf).
-    { unfold r_string, r_binary_gen, r_i32 in E. unfold ref_str in Er.
-      destruct (need_cases (drop 4 buf) 4 e_read_i32) as [[Hlt Hn]|[Hge Hn]]; rewrite Hn in E; cbn [bind] in E;
-        [discriminate|].
-      destruct (N.ltb_spec (len (drop 4 buf)) 4) as [Hc|_]; [lia|].
-      unfold i32 in E. set (sz := to_signed 32 (unbe (take 4 (drop 4 buf)))) in *.
-      destruct (Z.ltb_spec sz 0); [discriminate|].
-      destruct (N.ltb_spec (len (drop 4 buf)) (4 + Z.to_N sz)) as [Hc|Hc]; [discriminate|].
-      remember (4 + Z.to_N sz) as l0. inversion E; subst l. split; [reflexivity|].
-      rewrite len_drop_le in Hc. lia. }
-    destruct Hl as [-> Hfit].
-    set (sz := Z.to_N (to_signed 32 (unbe (take 4 (drop 4 buf))))) in *.
-    unfold r_i32.
-    destruct (need_cases (drop (4 + (4 + sz)) buf) 4 e_read_i32) as [[Hlt ->]|[Hge ->]]; cbn [bind];
-      rewrite len_drop_le in *.
-    + destruct (N.ltb_spec (len buf) (4 + (4 + sz) + 4)) as [_|Hc]; [|lia]. eexists; split; reflexivity.
-    + destruct (N.ltb_spec (len buf) (4 + (4 + sz) + 4)) as [Hc|_]; [lia|]. eexists; reflexivity.
+  rewrite slice_from_ok' by lia. cbn [bind].
+  unfold ref_str, r_string, r_binary_gen, r_i32.
+  destruct (need_cases (drop 4 buf) 4 e_read_i32) as [[Hlt ->]|[Hge ->]]; cbn [bind to_msg_err_name].
+  - destruct (N.ltb_spec (len (drop 4 buf)) 4) as [_|Hc]; [|lia].
+    change (e_read_str =? e_neg_size)%Z with false. cbv iota. eexists; split; reflexivity.
+  - destruct (N.ltb_spec (len (drop 4 buf)) 4) as [Hc|_]; [lia|].
+    unfold i32. set (sz := to_signed 32 (unbe (take 4 (drop 4 buf)))).
+    destruct (Z.ltb_spec sz 0) as [Hneg|Hpos]; cbn [to_msg_err_name].
+    + change (e_neg_size =? e_neg_size)%Z with true. cbv iota. eexists; split; reflexivity.
+    + rewrite len_drop_le in *.
+      destruct (N.ltb_spec (len buf - 4) (4 + Z.to_N sz)) as [Hc|Hc]; cbn [to_msg_err_name bind].
+      * change (e_read_str =? e_neg_size)%Z with false. cbv iota. eexists; split; reflexivity.
+      * rewrite slice_from_ok' by lia. cbn [bind].
+        destruct (need_cases (drop (4 + (4 + Z.to_N sz)) buf) 4 e_read_i32) as [[Hlt ->]|[Hge2 ->]];
+          cbn [bind to_msg_err]; rewrite len_drop_le in *.
+        -- destruct (N.ltb_spec (len buf) (4 + (4 + Z.to_N sz) + 4)) as [_|Hc2]; [|lia]. eexists; split; reflexivity.
+        -- destruct (N.ltb_spec (len buf) (4 + (4 + Z.to_N sz) + 4)) as [Hc2|_]; [lia|]. eexists; reflexivity.
 Qed.
 
-(* the full statement the property asks for ... *)
+(* the full statement the property asks for: every error of Binary.ReadMessageBegin carries the
+   type id of its cause *)
 Definition msg_err_typed_statement : Prop :=
   forall buf c, r_message_begin buf = Err c ->
     exists cz, ref_msg buf = Some cz /\ etype c = cause_type cz.
 
-(* ... is refuted: version 1, CALL, name length -1 *)
-Lemma msg_err_typed_refuted : ~ msg_err_typed_statement.
+Lemma msg_err_typed : msg_err_typed_statement.
 Proof.
-  intros H. destruct (H [128; 1; 0; 1; 255; 255; 255; 255] e_read_message eq_refl) as [cz [E T]].
-  vm_compute in E. inversion E; subst cz. vm_compute in T. discriminate.
-Qed.
-
-(* ... and holds for every cause other than a negative name length; for that one the model (and
-   the code) answer INVALID_DATA *)
-Lemma msg_err_typed_partial buf c :
-  r_message_begin buf = Err c ->
-  exists cz, ref_msg buf = Some cz /\
-    (cz <> CNeg -> etype c = cause_type cz) /\ (cz = CNeg -> etype c = thrift_INVALID_DATA).
-Proof.
-  intros E. pose proof (r_message_begin_classified buf) as H.
+  intros buf c E. pose proof (r_message_begin_classified buf) as H. unfold classified in H.
   destruct (ref_msg buf) as [cz|].
-  - destruct H as [c' [E' Hc]]. rewrite E in E'. inversion E'; subst c'. exists cz. split; [reflexivity|].
-    destruct cz; cbn [cause_eqb] in Hc; split; intros Hz; try congruence; assumption.
+  - destruct H as [c' [E' Hc]]. rewrite E in E'. inversion E'; subst c'. exists cz. split; [reflexivity|exact Hc].
   - destruct H as [v E']. congruence.
 Qed.
 
+(* regression of the repaired defect: version 1, CALL, name length -1 is NEGATIVE_SIZE *)
+Lemma msg_negative_name_regression :
+  r_message_begin [128; 1; 0; 1; 255; 255; 255; 255] = Err e_neg_size /\ etype e_neg_size = thrift_NEGATIVE_SIZE.
+Proof. split; vm_compute; reflexivity. Qed.
+
 Lemma msg_ok_iff buf : ref_msg buf = None <-> exists v, r_message_begin buf = Ok v.
 Proof.
-  pose proof (r_message_begin_classified buf) as H. split.
+  pose proof (r_message_begin_classified buf) as H. unfold classified in H. split.
   - intros E. now rewrite E in H.
   - intros [v E]. destruct (ref_msg buf) as [cz|]; [|reflexivity]. destruct H as [c [E' _]]. congruence.
 Qed.
